@@ -140,7 +140,7 @@ class ProgGen:
     # -- statements
     def stmt(self):
         r = self.r
-        c = r.randrange(18)
+        c = r.randrange(19)
         L = self.lines
         if c == 0:
             v = self.fresh('v')
@@ -290,6 +290,18 @@ class ProgGen:
             L.append(f'{v} = {base}_{n - 1} - {base}_{n - 2} + {self.int_expr(1)} + {base}_{r.randrange(n)} - {base}_{r.randrange(n)}')
             self.locals[v] = 'int'
             self.features.add('extended_arg')
+        elif c == 18:
+            # a string literal spanning several lines, one of them empty (the node splits its code into lines)
+            v = self.fresh('s')
+            q = r.choice(["'''", '"""'])
+            L.append(f'{v} = {q}first {self.n}')
+            L.append('')
+            L.append(f'  second{q}')
+            w = self.fresh('v')
+            L.append(f'{w} = len({v}) + {v}.count(chr(10))')
+            self.locals[v] = 'str'
+            self.locals[w] = 'int'
+            self.features.add('multiline_literal')
         elif c == 16:
             # annotations are evaluated (not stored as text) unless the code itself asks otherwise
             f = self.fresh('fa')
